@@ -50,6 +50,8 @@ def corpus_bfs(tier):
         ([part("é", None, "é".encode("latin-1"))], b, "latin-1", None, None),
         ([part("f", None, b"v1"), part("f", None, b"v2"), part("u", "fn", b"\r\n--", None)], b"--", "utf-8", b"p", None),
         ([part("u", "fn", b"-\r\n-", None), part("g", None, b"-")], b"-", "nonsense", None, None),
+        # names and filenames with characters that str.splitlines() (but not a multipart parser) treats as line breaks
+        ([part("a\x0bb", "f\x0cn.txt", b"1"), part("n\u2028m", None, b"2"), part("p\x85q", "r\x1es\x1dt\u2029", b"3")], b, "utf-8", None, None),
     ]
     # every content string up to length L over the delimiter's own alphabet, boundary 'b'
     L = 3 if tier == "quick" else 5
@@ -337,6 +339,75 @@ def via_asgi_form(chunks, boundary, charset):
 
         task = s.run_to_completion(prog())
         return task.result()
+
+
+# ------------------------------------------------------------------------------------------------------------
+def two_async_parses(prefix, jobs):
+    """jobs: [(chunks, boundary, charset)] x 2, parsed by two tasks on one virtual loop; every chunk hand-over is an event.
+    Returns Execution with obs = {"results": [items|('raised', ..)], "stuck": ...}."""
+    from baize.multipart_helper import parse_async_stream
+    from ..core.explore import Execution
+
+    with Session() as s:
+        results = [None] * len(jobs)
+
+        def make(i, chunks, boundary, charset):
+            async def gen():
+                for k, c in enumerate(chunks):
+                    await s.env.gate(f"j{i}c{k}")
+                    yield c
+
+            async def job():
+                try:
+                    results[i] = items_of(await parse_async_stream(gen(), boundary, charset, file_factory=ARecFile))
+                except Exception as e:  # noqa
+                    results[i] = ("raised", type(e).__name__, str(e)[:80])
+            return job()
+
+        tasks = [s.loop.create_task(make(i, *j)) for i, j in enumerate(jobs)]
+
+        class All:
+            def done(self):
+                return all(t.done() for t in tasks)
+
+        x = s.drive(All(), prefix)
+        return Execution(x.choices, x.points, {"results": results, "stuck": x.obs["stuck"]})
+
+
+def two_thread_parses(prefix, jobs):
+    """Two controlled threads, each running the sync helper over its own chunk iterator; every chunk hand-over is a scheduling point."""
+    from baize.multipart_helper import parse_stream
+    from ..core import vthreads as VT
+
+    S = VT.Sched(prefix, max_timeouts=0)
+    VT.set_current(S)
+    results = [None] * len(jobs)
+
+    def make(i, chunks, boundary, charset):
+        def it():
+            for c in chunks:
+                S.point("chunk")
+                yield c
+
+        def job():
+            try:
+                results[i] = items_of(parse_stream(it(), boundary, charset, file_factory=RecFile))
+            except VT.Abort:
+                raise
+            except Exception as e:  # noqa
+                results[i] = ("raised", type(e).__name__, str(e)[:80])
+        return job
+
+    def main():
+        for i, j in enumerate(jobs[1:], 1):
+            S.spawn(f"parse{i}", make(i, *j))
+        make(0, *jobs[0])()
+
+    try:
+        ok = S.start("parse0", main)
+    finally:
+        VT.set_current(None)
+    return S.execution({"results": results, "stuck": (not ok) or S.deadlock})
 
 
 PATHS = {"parse_stream": via_parse_stream, "parse_async_stream": via_parse_async_stream, "wsgi_form": via_wsgi_form, "asgi_form": via_asgi_form}
